@@ -3,6 +3,7 @@ package main
 import (
 	"fmt"
 	"go/token"
+	"go/types"
 	"strings"
 
 	"golang.org/x/tools/go/ssa"
@@ -384,6 +385,23 @@ func c13(r *Run) {
 				isOOF := callResultAtom(w.MustFn("isOutOfFdErr"), true)
 				r.guarded("C13.R5:retry-only-on-emfile", "the back-off is used only for out-of-descriptor errors", onRead, g, isOOF, nil, "guarded by isOutOfFdErr(err)")
 			}
+			// the back-off table is indexed within bounds for ever (the goroutine may retry for as long as descriptors are exhausted)
+			n := 0
+			for _, ins := range allIns(retry) {
+				ia, ok := ins.(*ssa.IndexAddr)
+				if !ok {
+					continue
+				}
+				if _, isSlice := ia.X.Type().Underlying().(*types.Slice); !isSlice {
+					continue
+				}
+				if _, isConst := ia.Index.(*ssa.Const); isConst {
+					continue
+				}
+				n++
+				okB := indexBounded(ia.Index, ia.X, map[ssa.Value]bool{}, 0)
+				r.ob(fmt.Sprintf("C13.R5:backoff-index-in-bounds#%d", n), "the retry goroutine indexes its back-off table with a value that is provably below the table's length on every iteration (initial constant, or an increment taken only under idx+1 < len(table)): a long exhaustion cannot crash the process", retry, ins, okB, "inductive bound on the index", true)
+			}
 			// accepted connections in the retry loop are handed to onAccept (checked above) and the loop continues
 		}
 	}
@@ -545,4 +563,71 @@ func idleRequires(fn *ssa.Function, a Atom) bool {
 func stripToBase(v ssa.Value) ssa.Value {
 	b, _ := stripNot(v, true)
 	return b
+}
+
+// indexBounded: v < len(slice) by induction over phis: constants 0, phis of bounded values, and x+c where the
+// increment is only taken on an edge established by  x+c' < len(slice)  with c' >= c.
+func indexBounded(v ssa.Value, slice ssa.Value, seen map[ssa.Value]bool, depth int) bool {
+	if depth > 10 {
+		return false
+	}
+	if seen[v] {
+		return true // inductive hypothesis
+	}
+	seen[v] = true
+	switch x := v.(type) {
+	case *ssa.Const:
+		k, ok := constInt(x)
+		if !ok || k < 0 {
+			return false
+		}
+		// table length if it is a slice of a fresh array
+		if sl, ok := slice.(*ssa.Slice); ok {
+			if a, ok := sl.X.(*ssa.Alloc); ok {
+				if arr, ok := a.Type().Underlying().(*types.Pointer).Elem().Underlying().(*types.Array); ok {
+					return k < arr.Len()
+				}
+			}
+		}
+		return k == 0
+	case *ssa.Phi:
+		for _, e := range x.Edges {
+			if !indexBounded(e, slice, seen, depth+1) {
+				return false
+			}
+		}
+		return true
+	case *ssa.BinOp:
+		if x.Op != token.ADD {
+			return false
+		}
+		c, ok := constInt(x.Y)
+		if !ok || c < 0 {
+			return false
+		}
+		if !indexBounded(x.X, slice, seen, depth+1) {
+			return false
+		}
+		for _, g := range guardChain(x.Block()) {
+			b, ok := g.Cond.(*ssa.BinOp)
+			if !ok || b.Op != token.LSS || !g.Branch {
+				continue
+			}
+			inc, ok := b.X.(*ssa.BinOp)
+			if !ok || inc.Op != token.ADD || inc.X != x.X {
+				continue
+			}
+			c2, ok := constInt(inc.Y)
+			if !ok || c2 < c {
+				continue
+			}
+			if lc, ok := b.Y.(*ssa.Call); ok {
+				if bi, isB := lc.Call.Value.(*ssa.Builtin); isB && bi.Name() == "len" && lc.Call.Args[0] == slice {
+					return true
+				}
+			}
+		}
+		return false
+	}
+	return false
 }
